@@ -145,7 +145,8 @@ def spectrum(kind: str, r: int, rng, kappa: float = 10.0) -> np.ndarray:
 
 
 STRUCT_CLASSES = ["axis0", "axis1", "axis2", "axis3", "herm_psd", "herm_nsd", "herm_indef", "unitary", "diag",
-                  "unit_identity", "rank1", "upper_tri", "lower_tri", "one_nonzero", "real_only", "tiny_row", "neg_identity", "spike_vs_flat", "spike_vs_flat_T"]
+                  "unit_identity", "rank1", "upper_tri", "lower_tri", "one_nonzero", "real_only", "tiny_row", "neg_identity", "spike_vs_flat", "spike_vs_flat_T",
+                  "mixed_type_lines", "mixed_type_lines_T"]
 
 
 def structured(rng, cls: str, m: int, n: int) -> np.ndarray:
@@ -208,6 +209,24 @@ def structured(rng, cls: str, m: int, n: int) -> np.ndarray:
         c[r_, int(rng.integers(0, nn))] = v / np.linalg.norm(v) * (2.0 * np.sqrt(max(mm, 1)) * flat2 + 1.0)
         A = refq.qa(c)
         return A if cls == "spike_vs_flat" else refq.qa(np.transpose(c, (1, 0, 2)).copy())
+    if cls in ("mixed_type_lines", "mixed_type_lines_T"):
+        # lines (rows; columns for _T) of different quaternion TYPE: the line with the largest sum of moduli consists of single-component entries
+        # (|w|+|x|+|y|+|z| = |q|), the others of entries with four equal components (|w|+|x|+|y|+|z| = 2|q|) whose sums of moduli reach 72 .. 99 %
+        # of the winner's - any screening of lines by a component-wise bound (sum or maximum of |components|, 1-norm of the real form) ranks them wrongly
+        mm, nn = (m, n) if cls == "mixed_type_lines" else (n, m)
+        c = np.zeros((mm, nn, 4))
+        win = int(rng.integers(0, mm))
+        ax = int(rng.integers(0, 4))
+        mods = 0.5 + rng.random(nn)
+        c[win, :, ax] = mods * rng.choice([-1.0, 1.0], size=nn)
+        for i in range(mm):
+            if i == win:
+                continue
+            frac = float(rng.choice([0.72, 0.8, 0.9, 0.97, 0.99])) if i % 2 == 0 else float(rng.random() * 0.6)
+            mo = (0.5 + rng.random(nn)); mo = mo / mo.sum() * mods.sum() * frac
+            c[i] = (mo / 2.0)[:, None] * rng.choice([-1.0, 1.0], size=(nn, 4))
+        A = refq.qa(c)
+        return A if cls == "mixed_type_lines" else refq.qa(np.transpose(c, (1, 0, 2)).copy())
     if cls == "tiny_row":
         c = rng.standard_normal((m, n, 4))
         c[int(rng.integers(0, m))] *= 1e-18
